@@ -716,3 +716,633 @@ theorem getItem_ofExprs_invalid (es : List Expr) (u k : Nat) (i : Int) (hi : ¬ 
     getItem (ofExprs es u k) i = .error Err.indexError := by
   unfold getItem
   simp only [ofExprs, List.length_map, normIdx_invalid hi, bind, Except.bind]
+
+/-! ## list lemmas for the mutable-list refinement -/
+
+theorem map_insertIdx {α β : Type} (f : α → β) (l : List α) (k : Nat) (x : α) :
+    (l.insertIdx k x).map f = (l.map f).insertIdx k (f x) := by
+  induction l generalizing k with
+  | nil => cases k <;> simp [List.insertIdx_zero, List.insertIdx_succ_nil]
+  | cons y ys ih =>
+    cases k with
+    | zero => simp [List.insertIdx_zero]
+    | succ k => simp [List.insertIdx_succ_cons, ih]
+
+theorem set_insertIdx_self {α : Type} (l : List α) (k : Nat) (x y : α) :
+    (l.insertIdx k x).set k y = l.insertIdx k y := by
+  induction l generalizing k with
+  | nil => cases k <;> simp [List.insertIdx_zero, List.insertIdx_succ_nil]
+  | cons z zs ih =>
+    cases k with
+    | zero => simp [List.insertIdx_zero]
+    | succ k => simp [List.insertIdx_succ_cons, ih]
+
+theorem map_eraseIdx {α β : Type} (f : α → β) (l : List α) (k : Nat) :
+    (l.eraseIdx k).map f = (l.map f).eraseIdx k := by
+  induction l generalizing k with
+  | nil => simp
+  | cons y ys ih => cases k <;> simp [ih]
+
+/-- rows selected by an index list (out-of-range positions are skipped) -/
+def selectL {α : Type} (l : List α) (idx : List Nat) : List α := idx.filterMap (fun i => l[i]?)
+
+/-- deletion of a set of positions -/
+def delManyL {α : Type} (l : List α) (idx : List Nat) : List α :=
+  (List.range l.length).filterMap (fun i => if idx.contains i then none else l[i]?)
+
+theorem map_selectL {α β : Type} (f : α → β) (l : List α) (idx : List Nat) :
+    (selectL l idx).map f = selectL (l.map f) idx := by
+  simp only [selectL, List.map_filterMap]
+  congr 1; funext i; simp
+
+theorem map_delManyL {α β : Type} (f : α → β) (l : List α) (idx : List Nat) :
+    (delManyL l idx).map f = delManyL (l.map f) idx := by
+  simp only [delManyL, List.map_filterMap, List.length_map]
+  congr 1; funext i
+  split <;> simp
+
+theorem mem_selectL {α : Type} {l : List α} {idx : List Nat} {x : α} (h : x ∈ selectL l idx) : x ∈ l := by
+  simp only [selectL, List.mem_filterMap] at h
+  obtain ⟨i, _, hi⟩ := h
+  exact List.mem_of_getElem? hi
+
+theorem mem_delManyL {α : Type} {l : List α} {idx : List Nat} {x : α} (h : x ∈ delManyL l idx) : x ∈ l := by
+  simp only [delManyL, List.mem_filterMap] at h
+  obtain ⟨i, _, hi⟩ := h
+  split at hi
+  · cases hi
+  · exact List.mem_of_getElem? hi
+
+/-! ## `__setitem__`, `insert`, `__delitem__` -/
+
+theorem absF_padData (D : Data) (d n : Nat) :
+    (padData D d n).map (fun r a => rowSem a r) = D.map (fun r a => rowSem a r) := by
+  simp only [padData, List.map_map]
+  apply List.map_congr_left
+  intro r _
+  funext a
+  exact rowSem_padRow a r d n
+
+theorem rowOK_repad {d n u d' n' : Nat} {r : Row} (hr : RowOK d n u r) (hd : d ≤ d') (hn : n ≤ n') :
+    RowOK d' n' u (padRow r d' n') := by
+  apply rowOK_padRow
+  · rw [hr.1]; exact hd
+  · intro c hc
+    exact ⟨by rw [(hr.2 c hc).1]; exact hn, (hr.2 c hc).2⟩
+
+/-- the container after `self[k] = e` for a position `k` (the non-raising part of `setItem`) -/
+def setRow (p : P) (k : Nat) (e : Expr) : P :=
+  let d := max p.nDisj e.height
+  let n := max p.nConj e.width
+  { p with data := (padData p.data d n).set k (padRow e.data3 d n), nDisj := d, nConj := n }
+
+theorem setItem_valid (p : P) (i : Int) (e : Expr) (hi : ValidIdx p.data.length i) :
+    setItem p i e = .ok (setRow p (pyPos p.data.length i) e) := by
+  simp only [setItem, normIdx_valid hi, bind, Except.bind, pure, Except.pure, setRow]
+
+theorem setItem_invalid (p : P) (i : Int) (e : Expr) (hi : ¬ ValidIdx p.data.length i) :
+    setItem p i e = .error Err.indexError := by
+  simp only [setItem, normIdx_invalid hi, bind, Except.bind]
+
+theorem wellPadded_setRow {p : P} (hp : WellPadded p) (k : Nat) {e : Expr} (he : e.InRange p.nUnits) :
+    WellPadded (setRow p k e) := by
+  intro r hr
+  simp only [setRow] at hr ⊢
+  rcases List.mem_or_eq_of_mem_set hr with hr | rfl
+  · simp only [padData] at hr
+    obtain ⟨r', hr', rfl⟩ := List.mem_map.mp hr
+    exact rowOK_repad (hp r' hr') (Nat.le_max_left ..) (Nat.le_max_left ..)
+  · exact rowOK_stored _ _ _ e he (Nat.le_max_right ..) (Nat.le_max_right ..)
+
+theorem absF_setRow (p : P) (k : Nat) {e : Expr} (he : e.Proper) :
+    absF (setRow p k e) = (absF p).set k (fun a => e.eval a) := by
+  simp only [absF, setRow, List.map_set, absF_padData]
+  congr 1
+  funext a
+  exact rowSem_stored a e he _ _
+
+theorem length_setRow (p : P) (k : Nat) (e : Expr) : (setRow p k e).data.length = p.data.length := by
+  simp [setRow, padData]
+
+/-- Python's `list.insert` position -/
+def insPos (len : Nat) (i : Int) : Nat := if i < 0 then (max ((len : Int) + i) 0).toNat else min i.toNat len
+
+theorem insPos_le (len : Nat) (i : Int) : insPos len i ≤ len := by
+  unfold insPos; split <;> omega
+
+/-- the container with an all-padding row inserted at position `k` -/
+def insertBlank (p : P) (k : Nat) : P :=
+  { p with data := p.data.insertIdx k (List.replicate p.nDisj (List.replicate p.nConj padLit)) }
+
+theorem mem_insertIdx_or {α : Type} {l : List α} {i : Nat} {a b : α} (h : a ∈ l.insertIdx i b) :
+    a = b ∨ a ∈ l := by
+  by_cases hi : i ≤ l.length
+  · exact (List.mem_insertIdx hi).mp h
+  · rw [List.insertIdx_of_length_lt (by omega)] at h; exact Or.inr h
+
+theorem rowOK_blank (d n u : Nat) : RowOK d n u (List.replicate d (List.replicate n padLit)) := by
+  refine ⟨by simp, ?_⟩
+  intro c hc
+  rw [(List.mem_replicate.mp hc).2]; exact conjOK_allpad n u
+
+theorem wellPadded_insertBlank {p : P} (hp : WellPadded p) (k : Nat) : WellPadded (insertBlank p k) := by
+  intro r hr
+  simp only [insertBlank] at hr ⊢
+  rcases mem_insertIdx_or hr with rfl | hr
+  · exact rowOK_blank _ _ _
+  · exact hp r hr
+
+theorem insert_eq (p : P) (i : Int) (e : Expr) :
+    insert p i e = .ok (setRow (insertBlank p (insPos p.data.length i)) (insPos p.data.length i) e) := by
+  have hk := insPos_le p.data.length i
+  have hv : ValidIdx (insertBlank p (insPos p.data.length i)).data.length
+      (Int.ofNat (insPos p.data.length i)) := by
+    simp only [insertBlank, List.length_insertIdx_of_le_length hk, ValidIdx, Int.ofNat_eq_natCast]
+    omega
+  have := setItem_valid (insertBlank p (insPos p.data.length i)) (Int.ofNat (insPos p.data.length i)) e hv
+  rw [pyPos_nonneg (by simp)] at this
+  simpa [insert, insertBlank, insPos] using this
+
+theorem wellPadded_insert {p : P} (hp : WellPadded p) (k : Nat) {e : Expr} (he : e.InRange p.nUnits) :
+    WellPadded (setRow (insertBlank p k) k e) :=
+  wellPadded_setRow (wellPadded_insertBlank hp k) k he
+
+theorem absF_insert (p : P) (k : Nat) {e : Expr} (he : e.Proper) :
+    absF (setRow (insertBlank p k) k e) = (absF p).insertIdx k (fun a => e.eval a) := by
+  rw [absF_setRow _ k he]
+  simp only [absF, insertBlank, map_insertIdx, set_insertIdx_self]
+
+theorem length_insert (p : P) (k : Nat) (e : Expr) (hk : k ≤ p.data.length) :
+    (setRow (insertBlank p k) k e).data.length = p.data.length + 1 := by
+  rw [length_setRow]; simp [insertBlank, List.length_insertIdx_of_le_length hk]
+
+theorem delItem_valid (p : P) (i : Int) (hi : ValidIdx p.data.length i) :
+    delItem p i = .ok { p with data := p.data.eraseIdx (pyPos p.data.length i) } := by
+  simp only [delItem, normIdx_valid hi, bind, Except.bind, pure, Except.pure]
+
+theorem delItem_invalid (p : P) (i : Int) (hi : ¬ ValidIdx p.data.length i) :
+    delItem p i = .error Err.indexError := by
+  simp only [delItem, normIdx_invalid hi, bind, Except.bind]
+
+theorem wellPadded_of_subset {p : P} (hp : WellPadded p) (D : Data) (h : ∀ r ∈ D, r ∈ p.data) :
+    WellPadded { p with data := D } :=
+  fun r hr => hp r (h r hr)
+
+theorem select_eq (p : P) (idx : List Nat) : select p idx = { p with data := selectL p.data idx } := rfl
+
+theorem delMany_eq (p : P) (idx : List Nat) : delMany p idx = { p with data := delManyL p.data idx } := rfl
+
+/-! ## histories of list operations -/
+
+/-- the truth function of a formula: what the list-level specification stores -/
+abbrev F := List Nat → Bool
+
+/-- the list operations the container offers -/
+inductive Op where
+  | set (i : Int) (e : Expr)
+  | insert (i : Int) (e : Expr)
+  | append (e : Expr)
+  | del (i : Int)
+  | select (idx : List Nat)
+  | delMany (idx : List Nat)
+
+/-- the operation's formula (if any) is proper and over units `< u` -/
+def Op.OK (u : Nat) : Op → Prop
+  | .set _ e => e.Proper ∧ e.InRange u
+  | .insert _ e => e.Proper ∧ e.InRange u
+  | .append e => e.Proper ∧ e.InRange u
+  | _ => True
+
+instance (u : Nat) (op : Op) : Decidable (op.OK u) := by cases op <;> unfold Op.OK <;> infer_instance
+
+/-- the model's transition -/
+def step (p : P) : Op → Except Err P
+  | .set i e => setItem p i e
+  | .insert i e => insert p i e
+  | .append e => insert p (Int.ofNat p.data.length) e
+  | .del i => delItem p i
+  | .select idx => pure (select p idx)
+  | .delMany idx => pure (delMany p idx)
+
+/-- the specification: a Python `list` of truth functions -/
+def listStep (l : List F) : Op → Except Err (List F)
+  | .set i e => if ValidIdx l.length i then pure (l.set (pyPos l.length i) (fun a => e.eval a))
+      else throw Err.indexError
+  | .insert i e => pure (l.insertIdx (insPos l.length i) (fun a => e.eval a))
+  | .append e => pure (l ++ [fun a => e.eval a])
+  | .del i => if ValidIdx l.length i then pure (l.eraseIdx (pyPos l.length i)) else throw Err.indexError
+  | .select idx => pure (selectL l idx)
+  | .delMany idx => pure (delManyL l idx)
+
+/-- run a history; a failing operation leaves the state unchanged and reports its error -/
+def runWith {σ : Type} (f : σ → Op → Except Err σ) (s : σ) : List Op → σ × List (Option Err)
+  | [] => (s, [])
+  | op :: ops =>
+    match f s op with
+    | .ok s' => let r := runWith f s' ops; (r.1, none :: r.2)
+    | .error e => let r := runWith f s ops; (r.1, some e :: r.2)
+
+theorem length_absF (p : P) : (absF p).length = p.data.length := by simp [absF]
+
+theorem insPos_self (len : Nat) : insPos len (Int.ofNat len) = len := by
+  simp [insPos]; omega
+
+/-- one step: the model and the list specification agree, the invariant is kept -/
+theorem step_refines (p : P) (op : Op) (hp : WellPadded p) (hop : op.OK p.nUnits) :
+    (∀ e, step p op = .error e → listStep (absF p) op = .error e) ∧
+    (∀ p', step p op = .ok p' →
+      listStep (absF p) op = .ok (absF p') ∧ WellPadded p' ∧ p'.nUnits = p.nUnits) := by
+  cases op with
+  | set i e =>
+    simp only [step, listStep, length_absF]
+    by_cases hi : ValidIdx p.data.length i
+    · rw [setItem_valid p i e hi]
+      simp only [hi, ↓reduceIte]
+      refine ⟨fun _ h => (by cases h), ?_⟩
+      intro p' h
+      cases h
+      exact ⟨by rw [absF_setRow _ _ hop.1]; rfl, wellPadded_setRow hp _ hop.2, rfl⟩
+    · rw [setItem_invalid p i e hi]
+      simp only [hi, ↓reduceIte]
+      exact ⟨fun _ h => by cases h; rfl, fun _ h => by cases h⟩
+  | insert i e =>
+    simp only [step, listStep, length_absF, insert_eq]
+    refine ⟨fun _ h => (by cases h), ?_⟩
+    intro p' h
+    cases h
+    exact ⟨by rw [absF_insert _ _ hop.1]; rfl, wellPadded_insert hp _ hop.2, rfl⟩
+  | append e =>
+    simp only [step, listStep, insert_eq, insPos_self]
+    refine ⟨fun _ h => (by cases h), ?_⟩
+    intro p' h
+    cases h
+    refine ⟨?_, wellPadded_insert hp _ hop.2, rfl⟩
+    rw [absF_insert _ _ hop.1, ← length_absF, List.insertIdx_length_self]; rfl
+  | del i =>
+    simp only [step, listStep, length_absF]
+    by_cases hi : ValidIdx p.data.length i
+    · rw [delItem_valid p i hi]
+      simp only [hi, ↓reduceIte]
+      refine ⟨fun _ h => (by cases h), ?_⟩
+      intro p' h
+      cases h
+      refine ⟨by simp only [absF, map_eraseIdx]; rfl, ?_, rfl⟩
+      exact wellPadded_of_subset hp _ (fun r hr => List.mem_of_mem_eraseIdx hr)
+    · rw [delItem_invalid p i hi]
+      simp only [hi, ↓reduceIte]
+      exact ⟨fun _ h => by cases h; rfl, fun _ h => by cases h⟩
+  | select idx =>
+    simp only [step, listStep, select_eq]
+    refine ⟨fun _ h => (by cases h), ?_⟩
+    intro p' h
+    cases h
+    exact ⟨by simp only [absF, map_selectL]; rfl, wellPadded_of_subset hp _ (fun r hr => mem_selectL hr), rfl⟩
+  | delMany idx =>
+    simp only [step, listStep, delMany_eq]
+    refine ⟨fun _ h => (by cases h), ?_⟩
+    intro p' h
+    cases h
+    exact ⟨by simp only [absF, map_delManyL]; rfl, wellPadded_of_subset hp _ (fun r hr => mem_delManyL hr), rfl⟩
+
+theorem run_refines (p : P) (ops : List Op) (hp : WellPadded p) (hops : ∀ op ∈ ops, op.OK p.nUnits) :
+    WellPadded (runWith step p ops).1 ∧ (runWith step p ops).1.nUnits = p.nUnits ∧
+    absF (runWith step p ops).1 = (runWith listStep (absF p) ops).1 ∧
+    (runWith step p ops).2 = (runWith listStep (absF p) ops).2 := by
+  induction ops generalizing p with
+  | nil => exact ⟨hp, rfl, rfl, rfl⟩
+  | cons op ops ih =>
+    obtain ⟨h1, h2⟩ := step_refines p op hp (hops op (by simp))
+    simp only [runWith]
+    cases hs : step p op with
+    | error e =>
+      rw [h1 e hs]
+      obtain ⟨i1, i2, i3, i4⟩ := ih p hp (fun o ho => hops o (by simp [ho]))
+      exact ⟨i1, i2, i3, by simp only [i4]⟩
+    | ok p' =>
+      obtain ⟨k1, k2, k3⟩ := h2 p' hs
+      rw [k1]
+      obtain ⟨i1, i2, i3, i4⟩ := ih p' k2 (fun o ho => by rw [k3]; exact hops o (by simp [ho]))
+      exact ⟨i1, by rw [i2, k3], i3, by simp only [i4]⟩
+
+/-! ## fork, select: row-wise action on the mask -/
+
+/-- `np.repeat` on a list -/
+def forkL {α : Type} (l : List α) (sizes : List Nat) : List α :=
+  (l.zip sizes).flatMap (fun rs => List.replicate rs.2 rs.1)
+
+theorem map_forkL {α β : Type} (f : α → β) (l : List α) (sizes : List Nat) :
+    (forkL l sizes).map f = forkL (l.map f) sizes := by
+  induction l generalizing sizes with
+  | nil => simp [forkL]
+  | cons x xs ih =>
+    cases sizes with
+    | nil => simp [forkL]
+    | cons s ss =>
+      have := ih ss
+      simp only [forkL] at this ⊢
+      simp [List.flatMap_cons, this]
+
+theorem mem_forkL {α : Type} {l : List α} {sizes : List Nat} {x : α} (h : x ∈ forkL l sizes) : x ∈ l := by
+  simp only [forkL, List.mem_flatMap, List.mem_replicate] at h
+  obtain ⟨rs, hrs, _, rfl⟩ := h
+  exact (List.of_mem_zip hrs).1
+
+theorem fork_eq (p : P) (sizes : List Nat) : fork p sizes = { p with data := forkL p.data sizes } := rfl
+
+/-- any row-wise re-arrangement `g` of the stored rows re-arranges the mask in the same way -/
+theorem query_rearrange (p : P) (vals : List Int) (m : List Bool) (D : Data) (M : List Bool)
+    (h : query p vals = .ok m)
+    (hg : ∀ f : Row → Except Err Bool, p.data.map f = m.map .ok → D.map f = M.map .ok) :
+    query { p with data := D } vals = .ok M := by
+  unfold query at h ⊢
+  by_cases hl : vals.length = p.nUnits
+  · simp only [hl, bne_self_eq_false, Bool.false_eq_true, ↓reduceIte] at h ⊢
+    rw [mapM_ok_iff] at h ⊢
+    exact hg _ h
+  · simp [hl, throw, throwThe, MonadExceptOf.throw] at h
+
+theorem query_fork (p : P) (sizes : List Nat) (vals : List Int) (m : List Bool)
+    (h : query p vals = .ok m) : query (fork p sizes) vals = .ok (forkL m sizes) := by
+  rw [fork_eq]
+  apply query_rearrange p vals m _ _ h
+  intro f hf
+  rw [map_forkL, hf, ← map_forkL]
+
+theorem query_select (p : P) (idx : List Nat) (vals : List Int) (m : List Bool)
+    (h : query p vals = .ok m) : query (select p idx) vals = .ok (selectL m idx) := by
+  rw [select_eq]
+  apply query_rearrange p vals m _ _ h
+  intro f hf
+  rw [map_selectL, hf, ← map_selectL]
+
+theorem query_delMany (p : P) (idx : List Nat) (vals : List Int) (m : List Bool)
+    (h : query p vals = .ok m) : query (delMany p idx) vals = .ok (delManyL m idx) := by
+  rw [delMany_eq]
+  apply query_rearrange p vals m _ _ h
+  intro f hf
+  rw [map_delManyL, hf, ← map_delManyL]
+
+theorem wellPadded_fork {p : P} (hp : WellPadded p) (sizes : List Nat) : WellPadded (fork p sizes) :=
+  wellPadded_of_subset hp _ (fun _ hr => mem_forkL hr)
+
+theorem wellPadded_select {p : P} (hp : WellPadded p) (idx : List Nat) : WellPadded (select p idx) :=
+  wellPadded_of_subset hp _ (fun _ hr => mem_selectL hr)
+
+theorem wellPadded_delMany {p : P} (hp : WellPadded p) (idx : List Nat) : WellPadded (delMany p idx) :=
+  wellPadded_of_subset hp _ (fun _ hr => mem_delManyL hr)
+
+/-! ## `Provenance(units=n)` and `Provenance(data=ids)` -/
+
+theorem flatMap_congr_mem {α β : Type} {l : List α} {f g : α → List β} (h : ∀ x ∈ l, f x = g x) :
+    l.flatMap f = l.flatMap g := by
+  induction l with
+  | nil => rfl
+  | cons x xs ih =>
+    simp only [List.flatMap_cons, h x (by simp)]
+    rw [ih (fun y hy => h y (by simp [hy]))]
+
+theorem rowTrue_single (vals : List Int) (u c : Int) (h0 : 0 ≤ u) (h1 : u < vals.length) :
+    rowTrue vals 1 1 [[(u, c)]] = .ok (vals.getD u.toNat 0 == c) := by
+  have hu : (u == -1) = false := by simp; omega
+  simp [rowTrue, conjTrue, litTrue, pyIdx_inrange vals u h0 h1, bind, Except.bind, pure, Except.pure, hu]
+
+theorem rowTrue_single_neg (vals : List Int) (c : Int) :
+    rowTrue vals 1 1 [[(-1, c)]] = .ok false := by
+  simp [rowTrue, conjTrue, litTrue, pyIdx_pad, bind, Except.bind, pure, Except.pure]
+
+theorem eq_map_range_getD (vals : List Int) : vals = (List.range vals.length).map (fun i => vals.getD i 0) := by
+  apply List.ext_getElem
+  · simp
+  · intro i h1 h2
+    simp [List.getD_eq_getElem?_getD, h1]
+
+theorem query_default (n k : Nat) (vals : List Int) (hlen : vals.length = n) :
+    query (default n k) vals =
+      .ok ((List.range n).flatMap (fun i => (List.range (k - 1)).map (fun (c : Nat) => vals.getD i 0 == ((c : Int) + 1)))) := by
+  unfold query
+  simp only [default, hlen, bne_self_eq_false, Bool.false_eq_true, ↓reduceIte]
+  rw [mapM_ok_iff, List.map_flatMap, List.map_flatMap]
+  apply flatMap_congr_mem
+  intro i hi
+  rw [List.map_map, List.map_map]
+  apply List.map_congr_left
+  intro c _
+  have hi' : i < vals.length := by rw [hlen]; exact List.mem_range.mp hi
+  have := rowTrue_single vals (Int.ofNat i) (Int.ofNat (c + 1)) (by simp) (by simpa using hi')
+  simpa using this
+
+theorem query_default_two (n : Nat) (vals : List Int) (hlen : vals.length = n) :
+    query (default n) vals = .ok (vals.map (· == 1)) := by
+  rw [query_default n 2 vals hlen]
+  congr 1
+  conv => rhs; rw [eq_map_range_getD vals, hlen]
+  simp [flatMap_single]
+
+theorem wellPadded_default (n k : Nat) : WellPadded (default n k) := by
+  intro r hr
+  simp only [default, List.mem_flatMap, List.mem_map, List.mem_range] at hr ⊢
+  obtain ⟨i, hi, c, _, rfl⟩ := hr
+  refine ⟨rfl, ?_⟩
+  intro cj hcj
+  rw [List.mem_singleton.mp hcj]
+  refine ⟨rfl, ?_⟩
+  intro l hl
+  rw [List.mem_singleton.mp hl]
+  right
+  simp; omega
+
+theorem mem_uniqueIds (ids : List Int) (g : Int) : g ∈ uniqueIds ids ↔ g ∈ ids ∧ g ≠ -1 := by
+  simp [uniqueIds, List.mem_eraseDups, List.mem_mergeSort]
+
+theorem idxOf_inj_of_mem {l : List Int} {g g' : Int} (hg : g ∈ l) (hg' : g' ∈ l)
+    (h : l.idxOf g = l.idxOf g') : g = g' := by
+  have h1 := List.getElem_idxOf (List.idxOf_lt_length_of_mem hg)
+  have h2 := List.getElem_idxOf (List.idxOf_lt_length_of_mem hg')
+  rw [← h1, ← h2]
+  simp only [h]
+
+theorem query_ofGroups (ids : List Int) (k : Nat) (vals : List Int)
+    (hlen : vals.length = (uniqueIds ids).length) :
+    query (ofGroups ids k) vals =
+      .ok (ids.flatMap (fun g => (List.range (k - 1)).map (fun (c : Nat) =>
+        g != -1 && vals.getD ((uniqueIds ids).idxOf g) 0 == ((c : Int) + 1)))) := by
+  unfold query
+  simp only [ofGroups, hlen, bne_self_eq_false, Bool.false_eq_true, ↓reduceIte]
+  rw [mapM_ok_iff, List.map_flatMap, List.map_flatMap]
+  apply flatMap_congr_mem
+  intro g hg
+  rw [List.map_map, List.map_map]
+  apply List.map_congr_left
+  intro c _
+  by_cases h : g = -1
+  · subst h
+    simpa using rowTrue_single_neg vals (Int.ofNat (c + 1))
+  · have hm : g ∈ uniqueIds ids := (mem_uniqueIds ids g).mpr ⟨hg, h⟩
+    have hlt := List.idxOf_lt_length_of_mem hm
+    have := rowTrue_single vals (Int.ofNat ((uniqueIds ids).idxOf g)) (Int.ofNat (c + 1)) (by simp)
+      (by rw [hlen]; simpa using hlt)
+    have hne : (g != -1) = true := by simpa using h
+    simpa [h, hne] using this
+
+theorem wellPadded_ofGroups (ids : List Int) (k : Nat) (h : ∀ g ∈ ids, g ≠ -1) :
+    WellPadded (ofGroups ids k) := by
+  intro r hr
+  simp only [ofGroups, List.mem_flatMap, List.mem_map, List.mem_range] at hr ⊢
+  obtain ⟨g, hg, c, _, rfl⟩ := hr
+  refine ⟨rfl, ?_⟩
+  intro cj hcj
+  rw [List.mem_singleton.mp hcj]
+  refine ⟨rfl, ?_⟩
+  intro l hl
+  rw [List.mem_singleton.mp hl]
+  right
+  have hm : g ∈ uniqueIds ids := (mem_uniqueIds ids g).mpr ⟨hg, h g hg⟩
+  have hlt := List.idxOf_lt_length_of_mem hm
+  simp [h g hg]; omega
+
+/-! ## join -/
+
+/-- no stored disjunct is pure padding (e.g. all rows have the same number of disjuncts) -/
+def NoPadDisj (p : P) : Prop := ∀ r ∈ p.data, ∀ c ∈ r, c.any (· != padLit) = true
+
+instance (p : P) : Decidable (NoPadDisj p) := by unfold NoPadDisj; infer_instance
+
+def shiftLit (k : Nat) (l : Lit) : Lit := if l.1 == -1 then l else (l.1 + k, l.2)
+
+theorem shiftConj_eq (k : Nat) (c : Conj) : shiftConj k c = c.map (shiftLit k) := rfl
+
+theorem litSem_append_left {u : Nat} {l : Lit} (hl : LitOK u l) (a b : List Nat) (ha : a.length = u) :
+    litSem (a ++ b) l = litSem a l := by
+  rcases hl with rfl | ⟨h0, h1, _⟩
+  · simp [litSem]
+  · have : l.1.toNat < a.length := by omega
+    simp [litSem, List.getD_eq_getElem?_getD, List.getElem?_append_left this]
+
+theorem shiftLit_pad (k : Nat) : shiftLit k padLit = padLit := by simp [shiftLit, padLit]
+
+theorem litSem_shift {u' : Nat} {l : Lit} (hl : LitOK u' l) (a b : List Nat) :
+    litSem (a ++ b) (shiftLit a.length l) = litSem b l := by
+  rcases hl with rfl | ⟨h0, h1, _⟩
+  · simp [shiftLit_pad, litSem]
+  · obtain ⟨x, c⟩ := l
+    simp only at h0 h1
+    have hx : (x == -1) = false := by simp; omega
+    have h1' : ((x + (a.length : Int), c) == padLit) = false := by simp [padLit]; omega
+    have h2' : ((x, c) == padLit) = false := by simp [padLit]; omega
+    have h3 : (x + (a.length : Int)).toNat = a.length + x.toNat := by omega
+    have hs : shiftLit a.length (x, c) = (x + (a.length : Int), c) := by simp [shiftLit, hx]
+    rw [hs]
+    simp only [litSem, h1', h2', Bool.false_or, List.getD_eq_getElem?_getD, h3]
+    rw [List.getElem?_append_right (by omega)]
+    simp
+
+theorem nonpad_shift {u' : Nat} {l : Lit} (hl : LitOK u' l) (k : Nat) :
+    (shiftLit k l != padLit) = (l != padLit) := by
+  rcases hl with rfl | ⟨h0, h1, _⟩
+  · simp [shiftLit_pad]
+  · obtain ⟨x, c⟩ := l
+    simp only at h0 h1
+    have hx : (x == -1) = false := by simp; omega
+    have h1' : ((x + (k : Int), c) != padLit) = true := by simp [padLit]; omega
+    have h2' : ((x, c) != padLit) = true := by simp [padLit]; omega
+    have hs : shiftLit k (x, c) = (x + (k : Int), c) := by simp [shiftLit, hx]
+    rw [hs, h1', h2']
+
+theorem litOK_shift {u u' : Nat} {l : Lit} (hl : LitOK u' l) : LitOK (u + u') (shiftLit u l) := by
+  rcases hl with rfl | ⟨h0, h1, h2⟩
+  · rw [shiftLit_pad]; exact litOK_pad _
+  · obtain ⟨x, c⟩ := l
+    simp only at h0 h1 h2
+    have hx : (x == -1) = false := by simp; omega
+    right
+    have hs : shiftLit u (x, c) = (x + (u : Int), c) := by simp [shiftLit, hx]
+    rw [hs]
+    simp; omega
+
+theorem litOK_mono {u u' : Nat} {l : Lit} (hl : LitOK u l) : LitOK (u + u') l := by
+  rcases hl with rfl | ⟨h0, h1, h2⟩
+  · exact litOK_pad _
+  · right; exact ⟨h0, by simp; omega, h2⟩
+
+theorem conjSem_join {n u n' u' : Nat} {c c' : Conj} (hc : ConjOK n u c) (hc' : ConjOK n' u' c')
+    (a b : List Nat) (ha : a.length = u) :
+    conjSem (a ++ b) (c ++ shiftConj u c') =
+      ((c.any (· != padLit) || c'.any (· != padLit)) && (c.all (litSem a) && c'.all (litSem b))) := by
+  subst ha
+  simp only [conjSem, shiftConj_eq, List.any_append, List.all_append, List.any_map, List.all_map,
+    Function.comp_def]
+  rw [all_congr_mem (fun l hl => litSem_append_left (hc.2 l hl) a b rfl)]
+  rw [any_congr_mem (l := c') (fun l hl => nonpad_shift (hc'.2 l hl) a.length)]
+  rw [all_congr_mem (l := c') (fun l hl => litSem_shift (hc'.2 l hl) a b)]
+
+/-- one joined row -/
+def joinRow (u : Nat) (r s : Row) : Row := r.flatMap (fun c => s.map (fun c' => c ++ shiftConj u c'))
+
+theorem rowSem_joinRow {d n u d' n' u' : Nat} {r s : Row} (hr : RowOK d n u r) (hs : RowOK d' n' u' s)
+    (hnr : ∀ c ∈ r, c.any (· != padLit) = true) (hns : ∀ c ∈ s, c.any (· != padLit) = true)
+    (a b : List Nat) (ha : a.length = u) :
+    rowSem (a ++ b) (joinRow u r s) = (rowSem a r && rowSem b s) := by
+  simp only [rowSem, joinRow, List.any_flatMap, List.any_map]
+  have h1 : r.any (fun c => s.any ((conjSem (a ++ b)) ∘ fun c' => c ++ shiftConj u c')) =
+      r.any (fun c => conjSem a c && s.any (conjSem b)) := by
+    apply any_congr_mem
+    intro c hc
+    rw [← any_and_left]
+    apply any_congr_mem
+    intro c' hc'
+    rw [Function.comp, conjSem_join (hr.2 c hc) (hs.2 c' hc') a b ha]
+    simp only [hnr c hc, hns c' hc', conjSem]
+    simp
+  rw [h1, any_and_right]
+
+theorem rowOK_joinRow {d n u d' n' u' : Nat} {r s : Row} (hr : RowOK d n u r) (hs : RowOK d' n' u' s) :
+    RowOK (d * d') (n + n') (u + u') (joinRow u r s) := by
+  constructor
+  · have : ∀ (r : Row), (joinRow u r s).length = r.length * s.length := by
+      intro r
+      induction r with
+      | nil => simp [joinRow]
+      | cons c cs ih =>
+        simp only [joinRow, List.flatMap_cons, List.length_append, List.length_map, List.length_cons] at ih ⊢
+        rw [ih, Nat.add_mul, Nat.one_mul, Nat.add_comm]
+    rw [this, hr.1, hs.1]
+  · intro cc hcc
+    simp only [joinRow, List.mem_flatMap, List.mem_map] at hcc
+    obtain ⟨c, hc, c', hc', rfl⟩ := hcc
+    constructor
+    · simp [shiftConj_eq, (hr.2 c hc).1, (hs.2 c' hc').1]
+    · intro l hl
+      rcases List.mem_append.mp hl with h | h
+      · exact litOK_mono ((hr.2 c hc).2 l h)
+      · rw [shiftConj_eq] at h
+        obtain ⟨l', hl', rfl⟩ := List.mem_map.mp h
+        exact litOK_shift ((hs.2 c' hc').2 l' hl')
+
+theorem join_data (p q : P) :
+    (join p q).data = p.data.flatMap (fun r => q.data.map (fun s => joinRow p.nUnits r s)) := rfl
+
+theorem wellPadded_join {p q : P} (hp : WellPadded p) (hq : WellPadded q) : WellPadded (join p q) := by
+  intro rr hrr
+  rw [join_data] at hrr
+  simp only [List.mem_flatMap, List.mem_map] at hrr
+  obtain ⟨r, hr, s, hs, rfl⟩ := hrr
+  exact rowOK_joinRow (hp r hr) (hq s hs)
+
+theorem query_join {p q : P} (hp : WellPadded p) (hq : WellPadded q) (hnp : NoPadDisj p) (hnq : NoPadDisj q)
+    (a b : List Int) (ha : a.length = p.nUnits) (hb : b.length = q.nUnits)
+    (hapos : ∀ v ∈ a, 0 ≤ v) (hbpos : ∀ v ∈ b, 0 ≤ v) :
+    query (join p q) (a ++ b) =
+      .ok (p.data.flatMap (fun r => q.data.map (fun s =>
+        rowSem (a.map Int.toNat) r && rowSem (b.map Int.toNat) s))) := by
+  rw [query_ok (join p q) (a ++ b) (wellPadded_join hp hq) (by simp [join, ha, hb])
+    (by intro v hv; rcases List.mem_append.mp hv with h | h; exact hapos v h; exact hbpos v h)]
+  rw [join_data, List.map_flatMap, List.map_append]
+  congr 1
+  apply flatMap_congr_mem
+  intro r hr
+  rw [List.map_map]
+  apply List.map_congr_left
+  intro s hs
+  exact rowSem_joinRow (hp r hr) (hq s hs) (hnp r hr) (hnq s hs) _ _ (by simp [ha])
+
+end Ds.Prov
